@@ -13,7 +13,7 @@ import (
 	"astverif/ssau"
 )
 
-// C02 runs the structural clauses R1–R5 of property C02.
+// C02 runs the structural clauses R1–R8 of property C02 (R6–R8 live in extra.go).
 func (a *A) C02() {
 	rd := a.readerAccess()
 	a.drainBeforeEnd()
@@ -23,6 +23,9 @@ func (a *A) C02() {
 	a.noReadAhead(rd)
 	a.earlyFlush()
 	a.whoMayRead(rd)
+	a.exactFitComplete()
+	a.psiTestLive()
+	a.assembledPayload()
 }
 
 // ---------------------------------------------------------------------------------------------
@@ -930,10 +933,37 @@ func (a *A) whoMayRead(rd readerSets) {
 		fs = append(fs, f)
 	}
 	sort.Slice(fs, func(i, j int) bool { return fs[i].Pos() < fs[j].Pos() })
+	// a private helper of an owner: unexported, never used as a value, called (at least once) from owners only
+	helperOf := map[*ssa.Function]string{}
+	for changed := true; changed; {
+		changed = false
+		for _, f := range fs {
+			if allowed[f] || f.Object() == nil || f.Object().Exported() || f.Signature.Recv() != nil {
+				continue
+			}
+			sites, other := a.callSites(f)
+			ok := len(sites) > 0 && len(other) == 0
+			var owners []string
+			for _, s := range sites {
+				if _, plain := s.In.(*ssa.Call); !plain || !allowed[s.Fn] {
+					ok = false
+				}
+				owners = append(owners, short(s.Fn))
+			}
+			if ok {
+				allowed[f], helperOf[f], changed = true, strings.Join(uniq(owners), ", "), true
+			}
+		}
+	}
 	for _, f := range fs {
 		var what []string
 		for _, c := range rd.direct[f] {
 			what = append(what, instrText(c))
+		}
+		if o := helperOf[f]; o != "" {
+			a.R.OK(rule, bare(f)+"/reader-access", a.ipos(rd.direct[f][0]),
+				short(f)+" is an unexported helper whose only references are plain calls from "+o+", an owner of the input reader: "+strings.Join(what, "; "))
+			continue
 		}
 		a.R.Check(allowed[f], rule, bare(f)+"/reader-access", a.ipos(rd.direct[f][0]),
 			short(f)+" is one of the four functions that own the input reader (peek, autoDetectPacketSize, rewind, (*packetBuffer).next): "+strings.Join(what, "; "),
